@@ -551,11 +551,15 @@ func TestCheck(t *testing.T) {
 	full := alphaCfg{ids: 3, counts: 3, maxTx: 4}
 	completed := 0
 	x := &explorer{r: r, c: chk, cfg: full, depth: 4, until: share(ev.Pick(r, 0.8, 0.2))}
+	onlyC := os.Getenv("C20_ONLY") == "C" // development hook: harness C alone (the evidence of such a run is not a check result)
+	if onlyC {
+		x.depth = 1
+	}
 	runExplorer(x) // depth 4 with the full alphabet first, in both tiers
 	if !x.cut.Load() {
 		completed = 4
 	}
-	if r.Thorough() && !r.OutOfTime() {
+	if r.Thorough() && !r.OutOfTime() && !onlyC {
 		// depth 5 (re-covers depth 4; the memoised functional checks are free the second time)
 		x5 := &explorer{r: r, c: chk, cfg: full, depth: 5, until: share(0.65)}
 		runExplorer(x5)
@@ -569,7 +573,7 @@ func TestCheck(t *testing.T) {
 	r.Set("A_depth", int64(depth))
 	r.Set("A_note", "thorough executes the depth-4 tree twice (once alone, once as the top of the depth-5 tree); states/transitions count executions")
 	r.Set("A_depth_completed_full_alphabet", int64(completed))
-	if r.Thorough() && !r.OutOfTime() {
+	if r.Thorough() && !r.OutOfTime() && !onlyC {
 		// depth 6 with the identifier/count alphabet halved (x,y; 0..1 txs + deltas); everything else unchanged
 		x6 := &explorer{r: r, c: chk, cfg: alphaCfg{ids: 2, counts: 2, maxTx: 3}, depth: 6, until: share(0.8)}
 		runExplorer(x6)
@@ -581,12 +585,18 @@ func TestCheck(t *testing.T) {
 	// cross-validation of the memoisation: a shallower exploration with every functional check re-evaluated on every path
 	chk2 := &checker{r: r, canons: canons, noMemo: true, tallest: canons[4]}
 	x2 := &explorer{r: r, c: chk2, cfg: full, depth: ev.Pick(r, 2, 3), until: share(0.9)}
+	if onlyC {
+		x2.depth = 1
+	}
 	runExplorer(x2)
 	r.Set("A_nomemo_depth", int64(x2.depth))
 	r.Set("A_nomemo_view_evaluations", chk2.evalReal.Load())
 
-	pollerHarness(t, r, canons)
-	raceSmoke(r)
+	orderedHarness(r, canons)
+	if !onlyC {
+		pollerHarness(t, r, canons)
+		raceSmoke(r)
+	}
 
 	if classPoolDigest() != classesBefore {
 		r.Violate("shared-class-definition-mutated", map[string]any{})
@@ -622,7 +632,7 @@ func TestCheck(t *testing.T) {
 		"and each view is read under %d canonical chains (real Blockchain, both backends; straight, after RevertHead, fork re-stored after revert, base missing). "+
 		"Immutability is measured, not assumed: deep canonical hash (reflect, unexported fields) of every chain ever published on the path is recomputed after every batch of sibling operations; culprit found by clean replay. "+
 		"Functions of view content alone (lookups, overlay reads vs dictionary model, entry vs wire) are memoised per deep content hash (purity re-checked by hashing after the reads) and cross-validated unmemoised to depth %d. "+
-		"non-trivial = distinct non-empty view contents fully evaluated", depth, len(canons)*2, x2.depth))
+		"non-trivial = distinct non-empty view contents fully evaluated. C (ordered_test.go): see C_rule", depth, len(canons)*2, x2.depth))
 	pprof.StopCPUProfile()
 	r.Assume = append(r.Assume,
 		"operation-granularity atomicity: the only shared mutable word of ChainStorage is the atomic pointer (layout asserted by reflection); immutability of everything behind it is checked by deep hashing",
